@@ -41,11 +41,19 @@ def problems():
                         bounds=np.array([[-4.0, 4.0], [-4.0, 0.0], [-1.0, 4.0]]))
     out["quartic4"] = dict(f=lbfgsb.quartic, g=lbfgsb.quartic_grad, x0=np.array([1.0, -1.5, 0.7, 2.0]),
                            bounds=np.array([[-2.0, 2.0], [-2.0, 2.0], [0.5, 2.0], [-2.0, 2.5]]))
+    # a box with a degenerate side (lb == ub): that component must never move, nor be stepped over by a stencil
+    out["qp3fix"] = dict(f=out["qp3"]["f"], g=out["qp3"]["g"], x0=np.array([2.0, -1.0, 1.0]), bounds=np.array([[-1.0, 3.0], [-1.0, -1.0], [-0.5, 3.0]]))
     # a saddle inside a box: curvature pairs get rejected (s.y <= 0) in mid-run
     Dg = np.array([1.0, 2.0, -1.5])
     cs = np.array([0.3, -0.4, 0.2])
     out["saddle3"] = dict(f=lambda x: float(0.5 * (Dg * x).dot(x) + cs.dot(x) + 0.05 * np.sum(x ** 4)), g=lambda x: Dg * x + cs + 0.2 * x ** 3,
                           x0=np.array([1.0, 0.5, 0.1]), bounds=np.array([[-1.0, 3.0], [-2.0, 2.0], [-1.0, 1.0]]))
+    # non-convex slices: the lowest line-search trial is not the last one evaluated
+    out["sinquad1"] = dict(f=lambda x: float(0.1 * x[0] ** 2 + np.sin(2.366 * x[0] + 1.719)), g=lambda x: np.array([0.2 * x[0] + 2.366 * np.cos(2.366 * x[0] + 1.719)]),
+                           x0=np.array([2.683]), bounds=np.array([[-10.0, 10.0]]))
+    out["sinquad2"] = dict(f=lambda x: float(0.1 * x.dot(x) + np.sin(2.366 * x[0] + 1.719) + np.cos(3.1 * x[1] - 0.4)),
+                           g=lambda x: 0.2 * x + np.array([2.366 * np.cos(2.366 * x[0] + 1.719), -3.1 * np.sin(3.1 * x[1] - 0.4)]),
+                           x0=np.array([2.683, -1.3]), bounds=np.array([[-10.0, 10.0], [-4.0, 6.0]]))
     # objectives on which short line searches (small maxls) fail in mid-run
     out["expdrop1"] = dict(f=lambda x: float(np.sum(x + np.exp(-10.0 * x))), g=lambda x: 1.0 - 10.0 * np.exp(-10.0 * x),
                            x0=np.array([-0.5]), bounds=np.array([[-2.0, 2.0]]))
@@ -128,9 +136,14 @@ def run_once(p, cfg, L=None, checkpoint=None, x0=None, callback_kind=None, extra
         kw.update(extra)
     x0 = np.array(p["x0"] if x0 is None else x0, dtype=float)
     rec = dict(L=L, states=states, counters=counters, cfg=cfg, checkpoint=checkpoint, exc=None, res=None)
+    keep_errstate = kw.pop("_keep_errstate", False)
     try:
-        with np.errstate(all="ignore"):
+        if keep_errstate:
+            # (fault scenarios: a leaked numpy error state must stay observable)
             res = minimize_lbfgsb(x0=x0, fun=L.fun, jac=kw.pop("jac", L.jac), bounds=p["bounds"], checkpoint=checkpoint, **kw)
+        else:
+            with np.errstate(all="ignore"):
+                res = minimize_lbfgsb(x0=x0, fun=L.fun, jac=kw.pop("jac", L.jac), bounds=p["bounds"], checkpoint=checkpoint, **kw)
         rec["res"] = res
         rec["snap"] = snap(res)
     except Exception as e:  # noqa
@@ -299,7 +312,7 @@ def scenario_single(c):
                         variants.append(v)
     for v in variants:
         for name, p in problems().items():
-            if v.get("sweep") and not name.startswith(("expdrop", "rosen")):
+            if v.get("sweep") and not name.startswith(("expdrop", "rosen", "sinquad")):
                 continue
             _single_one(v, name, p, out)
     return dict(runs=out)
@@ -336,10 +349,13 @@ def _single_one(c, name, p, out):
         cbks = [c.get("callback_kind")] if c.get("callback_kind") not in ("choose",) else ["false", "true", ["true_at", 1]]
         for cbk in cbks:
             L2 = L if ck is not None else Logged(p)
+            jx = None
+            if c.get("jac_mode"):
+                jx = dict(jac=None if c["jac_mode"] == "none" else c["jac_mode"])
             rec = run_once(p, dict(cfg), L=L2, checkpoint=copy.deepcopy(ck_obj) if ck_obj is not None else None,
-                           x0=ck_obj.x if ck_obj is not None else None, callback_kind=cbk)
+                           x0=ck_obj.x if ck_obj is not None else None, callback_kind=cbk, extra=jx)
             bad = audit(rec, p, c["maxiter"], c["maxfun"], gtol, ftarget=ft, ck=ck, ftarget_callable=c.get("ftarget_kind") == "callable",
-                        gtol_callable=c.get("gtol_kind") == "callable", maxcor=cfg["maxcor"], history=history)
+                        gtol_callable=c.get("gtol_kind") == "callable", maxcor=cfg["maxcor"], history=history, callable_grad=not c.get("jac_mode"))
             if cbk not in (None, "false") and rec["res"] is not None and rec["res"].message == MSG["CALLBACK"] and not rec["states"]:
                 bad["C04.callback_message_true"] = "callback message without a callback call"
             out.append(dict(problem=name, ftarget=ft, callback=cbk, violated=bad,
@@ -903,7 +919,7 @@ def scenario_fault(c):
                 for et in etypes:
                     err = et("user failure #%d" % idx)
                     L1, extra1, _ = build(kind, (idx, err))
-                    F = run_once(p, dict(base), L=L1, extra=extra1)
+                    F = run_once(p, dict(base), L=L1, extra=dict(extra1, _keep_errstate=True))
                     if np.geterr() != err_state0:
                         bad.setdefault("C20.fault_free_call_afterwards_unaffected", "after a %s in %s the numpy floating-point error state is %s (was %s): state left behind" % (et.__name__, kind, np.geterr(), err_state0))
                         bad.setdefault("C20.no_module_level_state_changed", bad["C20.fault_free_call_afterwards_unaffected"])
@@ -963,6 +979,8 @@ def fd_modes(c):
             if R["exc"] is not None:
                 bad.setdefault("no_exception", "%s from x0=%s raises %s: %s" % (name, np.asarray(x0).tolist(), type(R["exc"]).__name__, R["exc"]))
                 continue
+            if R["snap"]["message"] not in MSG.values() or not np.all(np.isfinite(R["snap"]["jac"])):
+                bad.setdefault("C16.run_terminates_normally_on_every_box", "%s from x0=%s with jac=%r: message %r, jac=%s" % (name, np.asarray(x0).tolist(), jac, R["snap"]["message"], R["snap"]["jac"].tolist()))
             if any(np.any(q < lb) or np.any(q > ub) for q, _ in L.fcalls):
                 bad.setdefault("C16.evaluation_points_in_box", "%s: an objective evaluation (stencil included) lies outside the box" % name)
             if R["snap"]["nfev"] != len(L.fcalls):
